@@ -109,3 +109,13 @@ def decode_step(arg):
     return {"keys": sorted(d.acs), "t": {k: v.get("t") for k, v in d.acs.items()},
             "lat": {k: v.get("lat") for k, v in d.acs.items()}, "lon": {k: v.get("lon") for k, v in d.acs.items()},
             "live": {k: v.get("live") for k, v in d.acs.items()}, "tpos": {k: v.get("tpos") for k, v in d.acs.items()}}
+
+
+def rtl_process(arg):
+    _stub_hw()
+    from pyModeS.extra import rtlreader
+    rd = object.__new__(rtlreader.RtlReader)
+    rd.signal_buffer = list(arg["buffer"])
+    rd.debug = False
+    rd.noise_floor = 1e6
+    return [m[0] for m in rd._process_buffer()]
